@@ -30,9 +30,10 @@ from the evaluator, the row operators and the reader loop:
   is proved sufficient where it matters: `C07_split_compiled_terminates`).
 
 Not covered by a theorem (exploration only): panic-freedom of external crates (regex, serde_json,
-dtparse, strfmt), allocation failure, the aggregation stages (`applyStage .group` turns an
-`EvalError` of `processRow`/`emit` into the model's panic marker — see C04/C09), and the printers
-(C19 has its own no-panic theorem).
+dtparse, strfmt), allocation failure, and the printers (C19 has its own no-panic theorem).  The
+aggregation stages and the whole run are covered in AgProofs/Props/C11plan.lean
+(`C11_compiled_runPlan_no_panic`: `processRow`/`emit` never fail, so the panic marker that
+`applyStage .group` would make of an `EvalError` is unreachable).
 -/
 import AgModel.Pipeline
 import AgProofs.Lemmas.Basic
